@@ -380,4 +380,7 @@ MCNext ==
 MCSpec == MCInit /\ [][MCNext]_vars
 
 Bounded == \A k \in KeyIds : nextv[k] <= Univ(cfg).maxv
+\* the fingerprint keeps everything the invariants read; the arguments of the last call that only
+\* the generator needs (object / node ids, requirement values) are left out
+MCView == <<bvars, ocnt, last.a, last.res, last.exp, last.key, last.v, last.seenb, last.whole>>
 =============================================================================
